@@ -58,6 +58,7 @@ CONSTANTS
   BroadcastOnResizeEnd,   \* TRUE (code)
   UnlockOnNewerTable,     \* TRUE (code): the retry path after `newer table exists` unlocks first
   ResizeRereadsTable,     \* TRUE (code): after winning the resizing CAS the resizer re-reads m.table; FALSE: it trusts the caller's table
+  ShrinkGiveUpClearsFlag, \* TRUE (code): a shrink request that finds the table already minimal after winning the CAS clears the flag and wakes the waiters; FALSE: it just returns
   CopySkipsEmptyBuckets,  \* FALSE (code): the copy locks every bucket; TRUE: it skips buckets that look empty without locking them
   ClearChecksCounter,     \* FALSE (code): Clear always resizes; TRUE: it returns early when the table is minimal and the counter reads zero
   LoadOnMissWaits,        \* FALSE (code): a lookup never consults the resize flag; TRUE: on a miss it waits for a resize in progress
@@ -194,7 +195,11 @@ RZ1r:  if hint = "clear" /\ ClearLoserRetries then goto RZ1; else return; end if
 RZ2: rz_t := IF ResizeRereadsTable THEN cur ELSE known;   \* LoadPointer(&m.table)
      rz_nb := IF hint = "grow" THEN 2 * tabs[rz_t].nb ELSE IF hint = "shrink" THEN tabs[rz_t].nb \div 2 ELSE MinNB;
      if hint = "shrink" /\ ~(tabs[rz_t].nb > MinNB /\ tabs[rz_t].size <= ShrinkAt[tabs[rz_t].nb]) then
-       goto RZa;                                          \* no need to shrink: wake up all waiters and give up
+       if ShrinkGiveUpClearsFlag \/ tabs[rz_t].nb # MinNB then
+         goto RZa;                                        \* no need to shrink: wake up all waiters and give up
+       else
+         goto RZg;                                        \* (alternative design) "already minimal": plain return
+       end if;
      else
        rz_new := nextGen; nextGen := nextGen + 1;
        tabs[rz_new] := EmptyTab(rz_nb);                   \* newMapTable (unpublished: plain)
@@ -225,6 +230,7 @@ RZa: await rmu = None; rmu := self;
 RZa2: resizing := FALSE;
 RZa3: waiters := {};
 RZa4: rmu := None; return;
+RZg: return;                                              \* the resizing flag stays set
 end procedure;
 
 \* ---- lock-free Load (map.go:206, mapof.go:158); result in lres[self] ----
@@ -643,7 +649,9 @@ RZ2(self) == /\ pc[self] = "RZ2"
              /\ rz_t' = [rz_t EXCEPT ![self] = IF ResizeRereadsTable THEN cur ELSE known[self]]
              /\ rz_nb' = [rz_nb EXCEPT ![self] = IF hint[self] = "grow" THEN 2 * tabs[rz_t'[self]].nb ELSE IF hint[self] = "shrink" THEN tabs[rz_t'[self]].nb \div 2 ELSE MinNB]
              /\ IF hint[self] = "shrink" /\ ~(tabs[rz_t'[self]].nb > MinNB /\ tabs[rz_t'[self]].size <= ShrinkAt[tabs[rz_t'[self]].nb])
-                   THEN /\ pc' = [pc EXCEPT ![self] = "RZa"]
+                   THEN /\ IF ShrinkGiveUpClearsFlag \/ tabs[rz_t'[self]].nb # MinNB
+                              THEN /\ pc' = [pc EXCEPT ![self] = "RZa"]
+                              ELSE /\ pc' = [pc EXCEPT ![self] = "RZg"]
                         /\ UNCHANGED << tabs, nextGen, rz_new, rz_b, rz_cnt >>
                    ELSE /\ rz_new' = [rz_new EXCEPT ![self] = nextGen]
                         /\ nextGen' = nextGen + 1
@@ -838,11 +846,27 @@ RZa4(self) == /\ pc[self] = "RZa4"
                               d_t, d_b, d_pos, d_old, d_r, d_ins, d_fnres, 
                               d_fndone, d_left, r_t, r_b, r_ents, r_i, c_t, ci >>
 
+RZg(self) == /\ pc[self] = "RZg"
+             /\ pc' = [pc EXCEPT ![self] = Head(stack[self]).pc]
+             /\ rz_t' = [rz_t EXCEPT ![self] = Head(stack[self]).rz_t]
+             /\ rz_new' = [rz_new EXCEPT ![self] = Head(stack[self]).rz_new]
+             /\ rz_b' = [rz_b EXCEPT ![self] = Head(stack[self]).rz_b]
+             /\ rz_nb' = [rz_nb EXCEPT ![self] = Head(stack[self]).rz_nb]
+             /\ rz_cnt' = [rz_cnt EXCEPT ![self] = Head(stack[self]).rz_cnt]
+             /\ hint' = [hint EXCEPT ![self] = Head(stack[self]).hint]
+             /\ known' = [known EXCEPT ![self] = Head(stack[self]).known]
+             /\ stack' = [stack EXCEPT ![self] = Tail(stack[self])]
+             /\ UNCHANGED << tabs, cur, nextGen, resizing, rmu, waiters, clk, 
+                             done, fncalls, lres, cres, rvis, pcnt, lk, l_t, 
+                             l_b, l_c, l_cand, l_s, l_v, l_k, kind, dk, dv, 
+                             dfn, d_t, d_b, d_pos, d_old, d_r, d_ins, d_fnres, 
+                             d_fndone, d_left, r_t, r_b, r_ents, r_i, c_t, ci >>
+
 resize(self) == RZ0(self) \/ RZ1(self) \/ RZ1r(self) \/ RZ2(self)
                    \/ RZc(self) \/ RZl(self) \/ RZu(self) \/ RZ4(self)
                    \/ RZ5(self) \/ RZ6(self) \/ RZ7(self) \/ RZ8(self)
                    \/ RZ9(self) \/ RZr(self) \/ RZa(self) \/ RZa2(self)
-                   \/ RZa3(self) \/ RZa4(self)
+                   \/ RZa3(self) \/ RZa4(self) \/ RZg(self)
 
 L1(self) == /\ pc[self] = "L1"
             /\ l_t' = [l_t EXCEPT ![self] = cur]
